@@ -826,6 +826,28 @@ def expr_shape(body, op, depth=0, repo_pred=None):
         return "in"
     d = single_def(body, l)
     if d is None:
+        # `if a > b { a - b } else { 0 }` is saturating_sub(a, b) spelled out
+        ds = [x for x in body.defs().get(l, []) if x[1] != "term" and not x[2]["p"].get("p")]
+        if len(ds) == 2 and len(body.defs().get(l, [])) == 2:
+            zero = [x for x in ds if x[2]["r"]["k"] == "use" and (op_const(x[2]["r"]["o"]) or {}).get("v") == 0]
+            other = [x for x in ds if x not in zero]
+            if len(zero) == 1 and len(other) == 1:
+                sh = expr_shape(body, {"c": {"l": l, "_def": None}}, depth + 1, repo_pred) if False else None
+                r = other[0][2]["r"]
+                sub_ = None
+                if r["k"] == "use":
+                    sh = expr_shape_of_def(body, other[0], depth + 1, repo_pred)
+                    if isinstance(sh, tuple) and sh[0] == "Sub":
+                        sub_ = sh
+                elif r["k"] == "bin" and r["op"].startswith("Sub"):
+                    sub_ = _node("Sub", [expr_shape(body, r["a"], depth + 1, repo_pred), expr_shape(body, r["b"], depth + 1, repo_pred)])
+                if sub_ is not None:
+                    for sbb, te, fe, o in guards_on(body, lambda o: o["k"] == "bin" and o["op"] in ("Gt", "Ge", "Lt", "Le")):
+                        ga, gb = expr_shape(body, o["a"], depth + 1, repo_pred), expr_shape(body, o["b"], depth + 1, repo_pred)
+                        if o["op"] in ("Lt", "Le"):
+                            ga, gb = gb, ga
+                        if (ga, gb) == (sub_[1], sub_[2]) and te and body.dominated_by_any(other[0][0], edges=te):
+                            return _node("saturating_sub", [sub_[1], sub_[2]])
         return "in"
     bb, idx, s = d
     if idx == "term":
@@ -853,6 +875,17 @@ def expr_shape(body, op, depth=0, repo_pred=None):
         return _node(opn, [expr_shape(body, r["a"], depth + 1, repo_pred), expr_shape(body, r["b"], depth + 1, repo_pred)])
     if k == "un":
         return _node(r["op"], [expr_shape(body, r["a"], depth + 1, repo_pred)])
+    return "in"
+
+
+def expr_shape_of_def(body, d, depth, repo_pred):
+    """shape of the right-hand side of one definition (bb, idx, stmt) of a local"""
+    r = d[2]["r"]
+    if r["k"] in ("use", "cast"):
+        return expr_shape(body, r["o"], depth, repo_pred)
+    if r["k"] == "bin":
+        opn = r["op"][:-len("WithOverflow")] if r["op"].endswith("WithOverflow") else r["op"]
+        return _node(opn, [expr_shape(body, r["a"], depth, repo_pred), expr_shape(body, r["b"], depth, repo_pred)])
     return "in"
 
 
@@ -1028,3 +1061,58 @@ def guarded_by_pred(body, x, pred, depth=0, side=True):
         if ok:
             return True
     return False
+
+
+# ---------------------------------------------------------------- affine forms
+
+def affine_forms(body, op, depth=0):
+    """possible values of an integer operand as a set of (number of symbolic leaves, constant offset): `mtu.saturating_sub(20)
+    .saturating_sub(8)`, `mtu - (20 + 8)` and `let h = 28; mtu.saturating_sub(h)` all give {(1, -28)}; a local assigned on several
+    branches contributes one form per definition.  Saturation / wrapping / checks are ignored (the caller reasons about offsets)."""
+    if depth > 30:
+        return {(1, 0)}
+    c = op_const(op)
+    if c is not None:
+        return {(0, c["v"])} if isinstance(c.get("v"), int) else {(1, 0)}
+    p = op_place(op)
+    if p is None:
+        return {(1, 0)}
+    if p.get("p"):
+        pr = p["p"]
+        if len(pr) == 1 and isinstance(pr[0], dict) and pr[0].get("i") == 0:
+            d = single_def(body, p["l"])
+            if d and d[1] != "term" and d[2]["r"]["k"] == "bin" and d[2]["r"]["op"].endswith("WithOverflow"):
+                return _affine_bin(body, d[2]["r"]["op"][:-len("WithOverflow")], d[2]["r"]["a"], d[2]["r"]["b"], depth)
+        return {(1, 0)}
+    l = p["l"]
+    if 1 <= l <= body.argc:
+        return {(1, 0)}
+    out = set()
+    ds = body.defs().get(l, [])
+    if not ds or len(ds) > 4:
+        return {(1, 0)}
+    for bb, idx, s in ds:
+        if idx == "term":
+            f = s.get("f", "") if s["k"] == "call" else ""
+            m = re.search(r"::(saturating_sub|wrapping_sub|checked_sub|saturating_add|wrapping_add|checked_add)$", f)
+            if m and len(s["args"]) == 2:
+                out |= _affine_bin(body, "Sub" if "sub" in m.group(1) else "Add", s["args"][0], s["args"][1], depth)
+            else:
+                out.add((1, 0))
+            continue
+        if s["p"].get("p"):
+            return {(1, 0)}
+        r = s["r"]
+        if r["k"] in ("use", "cast"):
+            out |= affine_forms(body, r["o"], depth + 1)
+        elif r["k"] == "bin" and r["op"].replace("WithOverflow", "").replace("Unchecked", "") in ("Add", "Sub"):
+            out |= _affine_bin(body, r["op"].replace("WithOverflow", "").replace("Unchecked", ""), r["a"], r["b"], depth)
+        else:
+            out.add((1, 0))
+    return out
+
+
+def _affine_bin(body, op, a, b, depth):
+    fa, fb = affine_forms(body, a, depth + 1), affine_forms(body, b, depth + 1)
+    sg = 1 if op == "Add" else -1
+    return {(x[0] + y[0], x[1] + sg * y[1]) for x in fa for y in fb}
